@@ -7,6 +7,8 @@
          parameter and (for eval) the expression is an element of its own argument slice; literal `true` only at listed sites
   R07.5  the trampoline consumes TailCall by looping; eval_func_with_values cannot itself hand the flag to user code
   R07.6  carriers: a documented short-circuit parameter whose value is returned unchanged is evaluated with the flag
+  R07.7  a tail iteration re-enters the body through the same gate as an ordinary call: the argument vector of TailCall passes
+         the erroring-argument test before from_template (same analysis as R06.4), so tail form and ordinary recursion agree on errors
 """
 import re
 from .lib import mirq, book, astq
@@ -415,3 +417,8 @@ def run(ctx):
                 else:
                     r6.inst({'function': sc['name'], 'param': sc['params'][K], 'native': top, 'post_processed': True, 'forwards_flag': fwd}, ok=True, kind=(top, K))
     r6.need(10)
+
+    # ---------------- R07.7 a tail iteration enters the body through the same gate as an ordinary call (shared with R06.4)
+    from . import c06
+    r7 = ctx.rule('R07.7', 'every origin of the argument vector (parameter, TailCall payload) passes the erroring-argument test before the frame')
+    c06.raise_gate(ctx, r7)
